@@ -147,6 +147,17 @@ def _scopes(scopes, o):
                  if v and not (o.wire and k == 'ANY'))
 
 
+def crnorm(x):
+    """The fingerprint with XML line-end normalisation applied to every
+    string value (what any XML parser does to a literal CR)."""
+    if isinstance(x, tuple):
+        if len(x) == 2 and x[0] in ('str', 'Char16') and \
+                isinstance(x[1], str):
+            return (x[0], x[1].replace('\r\n', '\n').replace('\r', '\n'))
+        return tuple(crnorm(i) for i in x)
+    return x
+
+
 def diff(a, b, path='', out=None, limit=6):
     """Human-readable list of the places where two fingerprints differ."""
     if out is None:
